@@ -21,6 +21,21 @@ func c05WriteTree(r *RNG, dir string, j *Journal, order []int) (string, string) 
 		nfiles = 1
 	}
 	dirs := []string{"", "sub", "sub/deep", "other"}
+	// a third of the trees use directory and file names with characters that mean something to globbing, shells,
+	// URLs or comment syntax (seeded change C05-c expanded include paths with filepath.Glob: names containing '['
+	// silently matched nothing)
+	odd := r.Chance(1, 3)
+	oddName := func(base string) string { return base }
+	if odd {
+		dirs = []string{"", "books [2023]", "books [2023]/q?", "a*b", "with space", "ünï#x"}
+		marks := []string{"[chf]", "*", "?", "[", "]", " ", "#", "'", "{a,b}", "~", "$HOME", "%20", "é", "[a-z]", "[!x]", "\\"}
+		oddName = func(base string) string {
+			if r.Chance(1, 2) {
+				return base
+			}
+			return base + Pick(r, marks)
+		}
+	}
 	type file struct {
 		rel    string
 		parent int
@@ -29,13 +44,16 @@ func c05WriteTree(r *RNG, dir string, j *Journal, order []int) (string, string) 
 	files := []*file{{rel: "main.knut", parent: -1}}
 	for k := 1; k < nfiles; k++ {
 		d := Pick(r, dirs)
-		files = append(files, &file{rel: path.Join(d, fmt.Sprintf("f%d.knut", k)), parent: r.Intn(k)})
+		files = append(files, &file{rel: path.Join(d, oddName(fmt.Sprintf("f%d", k))+".knut"), parent: r.Intn(k)})
 	}
 	for _, idx := range order {
 		f := files[r.Intn(nfiles)]
 		f.dirs = append(f.dirs, j.Dirs[idx])
 	}
 	shape := fmt.Sprintf("files%d", nfiles)
+	if odd && nfiles > 1 {
+		shape += "+oddnames"
+	}
 	for k, f := range files {
 		var b strings.Builder
 		// include directives for the children of this file, at random positions
